@@ -188,11 +188,14 @@ def case_blur(ctx, rng, wd, unequal, big=False):
         os.remove(out + "_properties.npy")
 
 
-def case_time(ctx, rng, exact):
+def case_time(ctx, rng, exact, long=False):
     from PyMatterSim.utils.coarse_graining import time_average
     SingleSnapshot, Snapshots = gc.records()
     T = int(rng.integers(3, 13))
     N = int(rng.integers(1, 12))
+    if long:
+        T, N = int(rng.choice([130, 150, 257])), int(rng.integers(1, 4))        # more frames than usual (block-wise evaluation boundaries)
+        ctx.count("series_over_128_frames")
     dt_s = str(rng.choice(["0.002", "0.005", "0.001", "0.01", "1.0", "0.0025"]))
     step = int(rng.choice([1, 10, 100, 250, 1000]))
     t0 = int(rng.choice([0, 500]))
@@ -263,6 +266,8 @@ def run(ctx):
     wd = fresh_dir("c16")
     if ctx.shard == 0 or ctx.thorough:
         case_blur(ctx, ctx.rng(), wd, unequal=True, big=True)
+        for _ in range(3):
+            case_time(ctx, ctx.rng(), exact=False, long=True)
     n = ctx.n(160, 500)
     for i in range(n):
         case_spatial(ctx, ctx.rng(), wd)
